@@ -8,8 +8,13 @@ import (
 	"fmt"
 
 	"github.com/SAP/go-dblib/asetypes"
+	"github.com/SAP/go-dblib/tds"
+	"verif/harness/hx"
+	"verif/harness/pkgcorpus"
 	"verif/harness/valgrid"
 	"verif/hlib"
+	"verif/ref/tdspkg"
+	"verif/ref/tdsval"
 )
 
 var h *hlib.H
@@ -60,6 +65,99 @@ func run(v valgrid.Val) {
 	h.Outcome("ok-" + v.K)
 }
 
+// ---- package leg: the value travels inside a parameter (or row) package together with its format
+
+func fmtFor(v valgrid.Val) tdspkg.Fmt {
+	f := tdspkg.Fmt{Name: "p", DT: v.DT, Status: 0x20}
+	switch tdsval.LengthPrefix(v.DT) {
+	case 1:
+		f.MaxLen = 255
+		if v.Len > 0 {
+			f.MaxLen = v.Len
+		}
+	case 4:
+		f.MaxLen = 2147483647
+	}
+	switch v.DT {
+	case tdsval.DECN, tdsval.NUMN:
+		f.Precision, f.Scale, f.MaxLen = uint8(v.P), uint8(v.Sc), 33
+	case tdsval.BIGDATETIMEN, tdsval.BIGTIMEN:
+		f.Scale, f.MaxLen = 6, 8
+	case tdsval.INTN, tdsval.UINTN, tdsval.FLTN:
+		f.MaxLen = 8
+	}
+	return f
+}
+
+func isTxtPtr(dt byte) bool {
+	return dt == tdsval.TEXT || dt == tdsval.IMAGE || dt == tdsval.UNITEXT || dt == tdsval.XML
+}
+
+func runPkg(v valgrid.Val) {
+	h.Eval(v.NonTrivial())
+	sig := "C04|" + v.Name() + "|package-leg|"
+	rf := fmtFor(v)
+	pan, msg := hlib.Catch(func() {
+		if isTxtPtr(v.DT) {
+			// a client never sends these: decode direction from a reference-encoded row
+			rowfmt := tdspkg.RowFmt{Wide: true, Fmts: []tdspkg.Fmt{rf}}
+			row := tdspkg.Data{Row: true, Fmts: rowfmt.Fmts, Values: []interface{}{v.Ref()}}
+			e := pkgcorpus.Entry{Enc: row.Encode(), Ctx: rowfmt.Encode()}
+			p, err := pkgcorpus.Parse(e, e.Enc)
+			if err != nil {
+				h.Violate(sig+"decode-error|"+v.Cls, fmt.Sprintf("%s: reference-encoded row does not parse: %v", v, err), v)
+				return
+			}
+			got := p.(*tds.RowPackage).DataFields[0].Value()
+			want, _ := tdsval.Encode(v.DT, v.Ref(), 0)
+			if b, ok := got.([]byte); !ok || string(b) != string(want) {
+				h.Violate(sig+"decode-differs|"+v.Cls, fmt.Sprintf("%s: row delivers %T %x, the column holds %x", v, got, got, trunc(want)), v)
+				return
+			}
+			h.Outcome("pkg-row-ok")
+			return
+		}
+		// the format comes from the server (reference-encoded PARAMFMT), the client fills in the value and sends PARAMS
+		pfEnc := tdspkg.ParamFmt{Wide: true, Fmts: []tdspkg.Fmt{rf}}.Encode()
+		pfPkg, err := pkgcorpus.Parse(pkgcorpus.Entry{Enc: pfEnc}, pfEnc)
+		if err != nil {
+			h.Violate(sig+"format-error|"+v.Cls, fmt.Sprintf("%s: reference-encoded parameter format does not parse: %v", v, err), v)
+			return
+		}
+		pf := pfPkg.(*tds.ParamFmtPackage)
+		data, err := tds.LookupFieldData(pf.Fmts[0])
+		if err != nil {
+			h.Violate(sig+"format-error|"+v.Cls, fmt.Sprintf("%s: %v", v, err), v)
+			return
+		}
+		data.SetValue(v.Lib())
+		out := tds.NewParamsPackage(data)
+		if err := out.LastPkg(pf); err != nil {
+			h.Violate(sig+"encode-error|"+v.Cls, fmt.Sprintf("%s: LastPkg: %v", v, err), v)
+			return
+		}
+		enc, err := hx.Encode(out)
+		if err != nil {
+			h.Violate(sig+"encode-error|"+v.Cls, fmt.Sprintf("%s: writing the parameter package: %v", v, err), v)
+			return
+		}
+		back, err := pkgcorpus.Parse(pkgcorpus.Entry{Enc: enc, Ctx: pfEnc}, enc)
+		if err != nil {
+			h.Violate(sig+"decode-error|"+v.Cls, fmt.Sprintf("%s: the parameter package %x does not parse back: %v", v, trunc(enc), err), v)
+			return
+		}
+		got := back.(*tds.ParamsPackage).DataFields[0].Value()
+		if ok, why := valgrid.SameValue(v, got, valgrid.Tolerance(v)); !ok {
+			h.Violate(sig+"roundtrip|"+v.Cls, fmt.Sprintf("%s: sent as %x, received wrongly: %s", v, trunc(enc), why), v)
+			return
+		}
+		h.Outcome("pkg-params-ok")
+	})
+	if pan {
+		h.Violate(sig+"panic|"+v.Cls, fmt.Sprintf("%s: %s", v, msg), v)
+	}
+}
+
 func trunc(b []byte) []byte {
 	if len(b) > 32 {
 		return b[:32]
@@ -72,11 +170,25 @@ func main() {
 	var rc valgrid.Val
 	if h.ReplayCase(&rc) {
 		run(rc)
+		runPkg(rc)
 		h.ReplayReport()
 	}
 	valgrid.Enumerate(h, func(v valgrid.Val) {
 		run(v)
 		h.Sample(func() interface{} { return v })
+	})
+	// package leg on the thinned grid (small sections complete, every 211th (thorough 23rd) point of the large ones)
+	valgrid.Thin = 211
+	if h.Thorough {
+		valgrid.Thin = 23
+	}
+	valgrid.Enumerate(h, func(v valgrid.Val) {
+		if v.DT == tdsval.LONGCHAR || v.DT == tdsval.LONGBINARY || v.DT == tdsval.IMAGE || v.DT == tdsval.TEXT || v.DT == tdsval.UNITEXT || v.DT == tdsval.XML {
+			if (v.K == "str" && len(v.S) > 70000) || (v.K == "bin" && len(v.X) > 70000) {
+				return
+			}
+		}
+		runPkg(v)
 	})
 	h.Done()
 }
